@@ -243,6 +243,29 @@ def check_generated(case):
               % (k, nrec, "declared" if case["declare"] else "undeclared"), hist)
         n += 1
         nt += 1
+    # a value too wide for its column in the last record (a molecule that drifted out of the representable range) makes
+    # that line longer; a writer abandoned after all declared records - no box line - must still not read as a system
+    if nrec >= 2:
+        wide = [list(r) for r in case["records"]]
+        wide[-1][6] = 12345.678
+        opath = env.fresh_path(".gro")
+        g = GroFile(opath, "w")
+        try:
+            with env.quiet():
+                if case["format"] is not None:
+                    g.position_format = (case["format"] + 5, case["format"])
+                g.natoms = nrec
+                for r in wide:
+                    g.writeline(list(r))
+        except Exception:      # noqa: BLE001
+            pass
+        del g
+        gc.collect()
+        kind, res = try_read(opath)
+        judge(kind, res, True, complete, "abandoned writer after %d of %d records, the last one with an over-wide value"
+              % (nrec, nrec), hist)
+        n += 1
+        nt += 1
     # part-way through closing: with a declared count, close() after fewer records raises -
     # what it leaves behind must not read as a system either
     if case["declare"] and len(case["records"]) >= 2:
